@@ -1,6 +1,6 @@
 (* Model of the provider selection in textx/model.py resolve_one_step. The precedence list
    and the shape of the selection statement come from Gen/SrcScope.v (translated). *)
-From TxV Require Import Core.Base Model.ScopeDefs Gen.SrcScope.
+From TxV Require Import Core.Base Model.ScopeDefs Gen.SrcScope Model.RrelSyntax.
 
 Definition mk_key (cls attr : list N) (ps : list part) : list N :=
   flat_map (fun p => match p with PCls => cls | PAttr => attr | PLit s => s end) ps.
@@ -24,15 +24,37 @@ Definition spec (regs : list (list N)) (cls attr : list N) (has_rrel : bool) : c
   else if mem_str (star ++ dot ++ star) regs then Registered (star ++ dot ++ star)
   else Default.
 
-(* What a registration value denotes once registered / what a grammar RREL denotes. *)
-Inductive provider := PCallable (id : nat) | PRrel (tree : nat).
-Inductive regvalue := RCallable (id : nat) | RString (text : nat).
-Section Parse.
-  Variable parse : nat -> nat.   (* rrel.parse: text -> tree (oracle; C12/C24 are about it) *)
-  Definition registered_provider (v : regvalue) : provider :=
-    match v with
-    | RCallable i => PCallable i
-    | RString t => if string_registration_parsed_by_grammar_ctor then PRrel (parse t) else PCallable 0
-    end.
-  Definition grammar_provider (tree : nat) : provider := PRrel tree.
-End Parse.
+(* A whole resolution pass: the references are visited in order; the provider of each one is selected
+   from its own rule and attribute name.  (`selection_per_reference` is a translated fact: the key list
+   is rebuilt and looked up in metamodel.scope_providers for every reference; were it false, the choice
+   made for an attribute name would be remembered and reused for later references to that name.) *)
+Fixpoint memo_find (attr : list N) (memo : list (list N * choice)) : option choice :=
+  match memo with
+  | [] => None
+  | (a, c) :: r => if str_eqb a attr then Some c else memo_find attr r
+  end.
+Fixpoint select_pass (regs : list (list N)) (refs : list (list N * list N * bool)) (memo : list (list N * choice)) : list choice :=
+  match refs with
+  | [] => []
+  | (cls, attr, has_rrel) :: r =>
+      if selection_per_reference then select regs cls attr has_rrel :: select_pass regs r memo
+      else if (grammar_provider_first && has_rrel)%bool then FromGrammar :: select_pass regs r memo
+      else match memo_find attr memo with
+           | Some c => c :: select_pass regs r memo
+           | None => let c := select regs cls attr has_rrel in
+                     c :: select_pass regs r (match c with Registered _ => (attr, c) :: memo | _ => memo end)
+           end
+  end.
+
+(* What a registration value denotes once registered / what a grammar RREL denotes.  The RREL parser is
+   the one of Model/RrelSyntax.v (property C12). *)
+Inductive provider := PCallable (id : nat) | PRrel (tree : RrelSyntax.expr) | PInvalid.
+Inductive regvalue := RCallable (id : nat) | RString (text : list N).
+Definition registered_provider (v : regvalue) : provider :=
+  match v with
+  | RCallable i => PCallable i
+  | RString t => if string_registration_parsed_by_grammar_ctor
+                 then match RrelSyntax.parse t with Some e => PRrel e | None => PInvalid end
+                 else PCallable 0
+  end.
+Definition grammar_provider (tree : RrelSyntax.expr) : provider := PRrel tree.
